@@ -153,17 +153,22 @@ example : LExpr.pure [.int 5] [.null Ty.none, .int 1] (.bin .add (.cst 1) (.un .
 
 /-! ### built-in functions (Model/Builtins.lean, run in the `Res` monad) -/
 
-/-- **Built-ins never reach a hazard** — `lsubstr rsubstr strpos replace trim ltrim rtrim upper lower strlen tokenize hash
-chr raw int b64enc b64dec str` (every modelled built-in but the three named below): for ANY number of arguments, each an
+/-- **Built-ins never reach a hazard** — EVERY modelled built-in: `substr subraw lsubstr rsubstr strpos replace trim ltrim
+rtrim upper lower strlen tokenize hex hash chr raw int b64enc b64dec str abs pow`. For ANY number of arguments, each an
 arbitrary computation that does not itself reach a hazard and whose value is well-formed (`ArgsOk`), the outcome is a
 value, a BLOC runtime error or an unmodelled cell, never a hazard: no typed accessor is applied to a null
 (fix "null_number_builtins"), every decimal→integer conversion is range-checked (`castToInt`; `int(decimal)`:
-`intOfDecimal_no_hazard`, fix "int_of_decimal_range"). Excluded: `substr`, `subraw`, `hex`, whose index arithmetic is
-signed and unguarded in the C++ (known findings C01.bi.substr.overflow, C01.bi.subraw.overflow, C01.bi.hex.overflow). -/
-theorem evalBuiltin_no_hazard_partial (fmt : Num.F64 → Bytes) (name : String) (args : List (Res Val)) (r : Res Val)
-    (hn : name ≠ "substr" ∧ name ≠ "subraw" ∧ name ≠ "hex") (h : ArgsOk args)
+`intOfDecimal_no_hazard`, fix "int_of_decimal_range"), and the signed index arithmetic of `substr`/`subraw` (`a + c`,
+`c - a`) and of `hex` (`n += 1`) cannot overflow (fixes e2c4824: a position still negative after adding the length
+selects nothing; cbe22cc: pad count clamped to 16), `abs` negates in `uint64_t` (fde74fa) and `pow(integer, integer)`
+is the exact `Num.ipow` of the `**` operator (eec6e8e). No built-in is excluded any more (this was
+`evalBuiltin_no_hazard_partial`, which left out `substr`, `subraw`, `hex`; `abs` and `pow` were not modelled). The only
+additional hypothesis, needed by `substr`/`subraw` alone, is that the length of a string / byte array fits the `int64_t`
+it is stored into (`ArgsLen`), as every `size()` does. -/
+theorem evalBuiltin_no_hazard (fmt : Num.F64 → Bytes) (name : String) (args : List (Res Val)) (r : Res Val)
+    (h : ArgsOk args) (hl : name = "substr" ∨ name = "subraw" → ArgsLen args)
     (hr : evalBuiltin (m := Res) fmt name args = some r) : r.isHazard = false :=
-  evalBuiltin_no_hazard_of fmt name args r hn h hr
+  evalBuiltin_no_hazard_of fmt name args r h hl hr
 
 example : evalBuiltin (m := Res) (fun _ => []) "chr" [.ok (.num 0x7ff8000000000000)] = some (.err Gen.EXC_RT_OUT_OF_RANGE) := rfl
 example : ArgsOk [.ok (.null Ty.num), .err 5 []] := by
@@ -172,14 +177,31 @@ example : ArgsOk [.ok (.null Ty.num), .err 5 []] := by
   rcases ht with rfl | rfl
   · exact ⟨rfl, fun v hv => by cases hv; rfl⟩
   · exact ⟨rfl, fun v hv => by cases hv⟩
+example : ArgsOk [.ok (.str [97, 98]), .ok (.int (-9223372036854775808))] ∧
+    ArgsLen [.ok (.str [97, 98]), .ok (.int (-9223372036854775808))] := by
+  constructor
+  · intro t ht
+    simp only [List.mem_cons, List.mem_nil_iff, or_false] at ht
+    rcases ht with rfl | rfl <;> exact ⟨rfl, fun v hv => by cases hv; rfl⟩
+  · intro t ht v hv
+    simp only [List.mem_cons, List.mem_nil_iff, or_false] at ht
+    rcases ht with rfl | rfl <;> (cases hv; rfl)
 
-/-- The full statement is false for `substr`, `subraw`, `hex`: the recorded witnesses reach a signed overflow in the
-model exactly as UBSan reports it on the pinned build (`c - a` after `a = a + c` with a = INT64_MIN; `n += 1` at
-INT64_MAX). -/
-theorem evalBuiltin_hazard_witness :
-    biSubstr (m := Res) [.ok (.str [97, 98]), .ok (.int (-9223372036854775808))] = .haz .signedOverflow ∧
-    biSubraw (m := Res) [.ok (.raw [97, 98]), .ok (.int (-9223372036854775808))] = .haz .signedOverflow ∧
-    biHex (m := Res) [.ok (.int 0), .ok (.int 9223372036854775807)] = .haz .signedOverflow := ⟨rfl, rfl, rfl⟩
+/-- The former witnesses of the three overflow findings (C01.bi.substr.overflow, C01.bi.subraw.overflow,
+C01.bi.hex.overflow) and of C01.bi.abs.overflow / C01.bi.pow.floatcast now return values — in the model exactly as
+in the repaired build: a begin position of INT64_MIN selects nothing, a pad count of INT64_MAX pads to 16 digits,
+abs(INT64_MIN) wraps to INT64_MIN, pow(INT64_MAX, 5) is (2^63 − 1)^5 mod 2^64. (This was `evalBuiltin_hazard_witness`,
+which showed `.haz .signedOverflow` for the first three.) -/
+theorem evalBuiltin_repaired_witnesses :
+    biSubstr (m := Res) [.ok (.str [97, 98]), .ok (.int (-9223372036854775808))] = .ok (.str []) ∧
+    biSubraw (m := Res) [.ok (.raw [97, 98]), .ok (.int (-9223372036854775808))] = .ok (.raw []) ∧
+    biHex (m := Res) [.ok (.int 0), .ok (.int 9223372036854775807)] = .ok (.str (List.replicate 16 48)) ∧
+    biAbs (m := Res) [.ok (.int (-9223372036854775808))] = .ok (.int (-9223372036854775808)) ∧
+    biPow (m := Res) [.ok (.int 9223372036854775807), .ok (.int 5)] = .ok (.int 9223372036854775807) :=
+  ⟨rfl, rfl, rfl, rfl, rfl⟩
+
+example : (biSubstr (m := Res) [.ok (.str [97, 98]), .ok (.int (-9223372036854775808))]).isHazard = false := by
+  rw [evalBuiltin_repaired_witnesses.1]; rfl
 
 /-- `int(decimal)` (builtin_int.cpp after the repair of the range test): the hazard branch of the model — the C cast
 of a non-finite double — is unreachable, for every bit pattern. -/
